@@ -3,7 +3,11 @@
 tree_is_leaf, all_leaves), not only through tree_flatten, against a reference flattener written from the statement of C02:
 (a) OrderedDicts with a re-ordering history (move_to_end to either end, delete + re-insert, popitem + re-insert) at depth 0..2;
 (b) value-based is_leaf predicates that accept some and reject other objects of the same node type, in every order;
-(c) dict / defaultdict key pools (sortable, mixed types, unsortable) under both none_is_leaf settings.
+(c) dict / defaultdict key pools (sortable, mixed types, unsortable) under both none_is_leaf settings;
+(d) custom nodes whose flatten function hands out its own mutable list of children while the flatten function of a child
+re-orders / shrinks / grows that list during the descent: the children are those yielded when the function returned;
+(e) the class-predicate cache at its capacity (4096 classes classified, in a child interpreter): a namedtuple class created at
+the address of a dead ordinary class (and the reverse) is still classified by what it is.
 Exhaustive over the listed grid."""
 from ocv.bounded._extra import run_core
 
@@ -98,7 +102,91 @@ PAIRS = [('t1', 't2'), ('l1', 'l2'), ('d1', 'd2'), ('od1', 'od2'), ('q1', 'q2'),
 KEYPOOLS = {'ints': [3, 1, 2], 'strs': ['b', 'a', 'c'], 'mixed': [2, 'a', 1, 'b'], 'mixed3': [1.5, 'a', 1, (0,)],
             'unsortable': [UKey(2), UKey(0), UKey(1)], 'partly': [3, 1, UKey(0)], 'tuples': [(1, 'a'), (0, 'b'), (1, 'A')]}
 
+NS2 = 'c02x'
+class Owner:
+    """custom node that yields its OWN list object as children"""
+    def __init__(self, items): self.items = list(items)
+class Slot:
+    """child whose flatten function changes the owner's list while the owner is being flattened"""
+    def __init__(self, owner, name, action): self.owner, self.name, self.action = owner, name, action
+def _flat_owner(o): return (o.items, None)
+def _flat_slot(s):
+    it = s.owner.items
+    if s.action == 'move_to_end' and s in it:
+        it.remove(s); it.append(s)
+    elif s.action == 'pop_last' and len(it) > 1:
+        it.pop()
+    elif s.action == 'append':
+        it.append('extra')
+    elif s.action == 'reverse':
+        it.reverse()
+    return ((s.name,), None)
+for _cls, _fl in ((Owner, _flat_owner), (Slot, _flat_slot)):
+    try:
+        optree.register_pytree_node(_cls, _fl, lambda m, c: None, namespace=NS2)
+    except ValueError:
+        pass
+
+def mutating_case(action, pos, nil):
+    bad = []
+    def build():
+        o = Owner([])
+        names = ['A', 'B', 'C', 'D']
+        o.items = [Slot(o, nm, action if k == pos else 'none') for k, nm in enumerate(names)] + [0]
+        return o
+    want = ['A', 'B', 'C', 'D', 0]          # the children yielded when Owner's flatten function returned, in that order
+    kw = dict(namespace=NS2, none_is_leaf=nil)
+    for nm, f in (('tree_leaves', lambda t: optree.tree_leaves(t, **kw)), ('tree_flatten', lambda t: optree.tree_flatten(t, **kw)[0]),
+                  ('tree_iter', lambda t: list(optree.tree_iter(t, **kw))), ('tree_flatten_with_path', lambda t: optree.tree_flatten_with_path(t, **kw)[1]),
+                  ('tree_flatten_with_accessor', lambda t: optree.tree_flatten_with_accessor(t, **kw)[1])):
+        r = outcome(lambda: f(build()))
+        if r != ('ok', want):
+            bad.append(('C02.custom_children_in_the_order_the_flatten_function_yielded_them', f'{nm}: child {pos} does {action} on the list its parent handed out: got {r[1]!r}, the flatten function yielded {want!r}'))
+    return bad
+
+CACHE_SRC = """
+import sys, gc, collections, optree
+keep = []
+for i in range(4200):                       # fill the class-predicate caches to their capacity with live classes
+    c = type(f'K{i}', (), {})
+    keep.append(c); optree.tree_leaves(c())
+bad = []
+for rnd in range(300):
+    c = type('Tmp', (), {}); optree.tree_leaves([c()]); addr = id(c); del c; gc.collect()
+    P = collections.namedtuple('P', 'x y')
+    got = optree.tree_leaves([P(1, 2)])
+    if got != [1, 2]:
+        bad.append(f'round {rnd}: namedtuple class at {"the same" if id(P) == addr else "another"} address as a dead ordinary class flattens to {got!r}')
+        break
+    got = (optree.tree_is_leaf(P(1, 2)), optree.all_leaves([P(1, 2)]))
+    if got != (False, False):
+        bad.append(f'round {rnd}: tree_is_leaf / all_leaves on a namedtuple instance give {got!r}')
+        break
+    del P; gc.collect()
+    c = type('Tmp2', (), {})
+    got = optree.tree_leaves([c()])
+    if len(got) != 1:
+        bad.append(f'round {rnd}: ordinary object flattens to {got!r}')
+        break
+    del c; gc.collect()
+print('; '.join(bad)); sys.exit(1 if bad else 0)
+"""
+
+def cache_full():
+    import subprocess, sys, os
+    r = subprocess.run([sys.executable, '-c', CACHE_SRC], capture_output=True, text=True,
+                       env=dict(os.environ, PYTHONPATH=os.pathsep.join(sys.path)), cwd='/', timeout=600)
+    if r.returncode == 0:
+        return []
+    what = r.stdout.strip()[:300] if r.returncode == 1 else f'child interpreter died with status {r.returncode}: {r.stderr.strip()[-300:]}'
+    return [('C02.classification_by_exact_type_with_a_full_class_cache', what)]
+
 def cases(tier):
+    yield ('cachefull',)
+    for action in ('none', 'move_to_end', 'pop_last', 'append', 'reverse'):
+        for pos in range(4):
+            for nil in (False, True):
+                yield ('mutating', action, pos, nil)
     for n in (0, 1, 2):
         for h in itertools.product(HIST_STEPS, repeat=n):
             for w in WRAPS:
@@ -150,6 +238,10 @@ def compare(tree, pred, nil, clause, what, bad):
 
 def check(spec):
     bad = []
+    if spec[0] == 'cachefull':
+        return cache_full()
+    if spec[0] == 'mutating':
+        return mutating_case(*spec[1:])
     if spec[0] == 'od':
         _, h, w = spec
         od = od_history(h)
